@@ -96,7 +96,7 @@ def is_essential(f, P):
         return True
     owner, kind = f.get('owner') or '', f.get('kind')
     tags = tags_of(f['obligation'])
-    safety = kind in ('overflow', 'decreases', 'other') or (kind == 'pre' and f.get('in_source'))
+    safety = kind in ('overflow', 'decreases', 'safety') or (kind == 'pre' and f.get('in_source'))
     for r in P.get('essential', []):
         if not re.search(r['owners'], owner):
             continue
@@ -334,10 +334,9 @@ def main():
     # a functional clause that fails in a function which also has a failed safety condition in its real code (a call whose
     # precondition does not hold, an overflow) describes an execution that continues past the panic: not a statement of its own
     unsafe_owners = {f.get('owner') for f in violations
-                     if f.get('kind') in ('overflow', 'other') or (f.get('kind') == 'pre' and f.get('in_source'))}
+                     if f.get('kind') in ('overflow', 'safety') or (f.get('kind') == 'pre' and f.get('in_source'))}
     for f in violations:
-        if f.get('essential') and f.get('owner') in unsafe_owners and f.get('kind') in ('ensures', 'invariant', 'assert') \
-                and not (f.get('kind') == 'pre'):
+        if f.get('essential') and f.get('owner') in unsafe_owners and f.get('kind') in ('ensures', 'invariant', 'assert', 'other'):
             if not any(r.get('safety') for r in P.get('essential', [])):
                 f['essential'] = False
                 f['cascade'] = True
